@@ -107,6 +107,15 @@ def gen_C15(rng, tier):
                     out.append(('hexdecinto %d %s' % (dstlen, hexb(txt)), 'hexdecinto/' + c + ('/exact' if nd == 2 * dstlen else '/wrong')))
                     if dstlen == 32:
                         out.append(('hexdec ' + hexb(txt), 'hexdec/' + c))
+    # every byte value as a digit: all 256 values in each position of a two-character text (the exact
+    # digit set [0-9a-fA-F]; case folding or table tricks that admit other bytes), and inside a 64-digit text
+    for b in range(256):
+        out.append(('hexdecinto 1 ' + hexb(bytes([b]) + b'7'), 'hexdecinto/every-byte'))
+        out.append(('hexdecinto 1 ' + hexb(b'c' + bytes([b])), 'hexdecinto/every-byte'))
+    t64 = bytes(rng.choice(HEXCH) for _ in range(64))
+    for b in list(range(0, 0x30)) + list(range(0x3a, 0x41)) + list(range(0x47, 0x61)) + list(range(0x67, 0x80)) + [0x80, 0xb0, 0xc1, 0xe1, 0xff]:
+        pos = rng.randrange(64)
+        out.append(('hexdecinto 32 ' + hexb(t64[:pos] + bytes([b]) + t64[pos + 1:]), 'hexdecinto/every-non-digit'))
     # near-prefixes: two characters that are almost "0x" in front of a payload of exactly 2*dstlen valid
     # digits (a prefix test that looks at one of the two characters only accepts some of them)
     NEARP = (b'1x', b'xx', b'Ox', b'zx', b'\x00x', b'fx', b'0y', b'0w', b'x0', b'00', b'0:', b'8x', b'/x')
